@@ -185,7 +185,7 @@ def entryRef (cfg : Cfg) (env : Env) (k newkid : Nat) (c : EChain) (w : World) :
       pure (h, r, w2)).onPanic (dropValOpt cfg c.heldVid)
   search.bind fun (h, r, w1) =>
     match r, c with
-    | some idx, .key => (liftE (slotGet w1.t idx)).bind fun _ => .ok ((true, .qkey k), w1)
+    | some idx, .key => (liftE (slotGet w1.t idx)).bind fun old => .ok ((true, .qkey old.k), w1)
     | some idx, _ => chainOcc cfg env idx c w1
     | none, .key => .ok ((false, .qkey k), w1)
     | none, .insert vid v =>
@@ -293,8 +293,8 @@ def rawEntry (cfg : Cfg) (env : Env) (mode : RawMode) (ph k : Nat) (c : RawChain
       | .occInsert vid v =>
         pure ((true, .val old.vid old.v), { w1 with t := slotSet w1.t idx { old with vid := vid, v := v } })
       | .occInsertKey kid =>
-        -- the stored KEY object is replaced, the old one handed back
-        pure ((true, .key old.k old.kid), { w1 with t := slotSet w1.t idx { old with kid := kid } })
+        -- the stored KEY object is replaced by the caller's (`k`, `kid`), the old one handed back
+        pure ((true, .key old.k old.kid), { w1 with t := slotSet w1.t idx { old with k := k, kid := kid } })
       | .andModify nv =>
         let e' := { old with v := nv }
         pure ((true, .elem e'), { w1 with t := slotSet w1.t idx e' })
